@@ -1040,7 +1040,15 @@ fn op_bitmask(c: &Value, ev: &mut Map<String, Value>) -> Result<(), String> {
 /// Display of a decode error (C20): the text, and its alphanumeric words
 fn op_render(c: &Value, ev: &mut Map<String, Value>) -> Result<(), String> {
     let e = err_from_json(&c["v"])?;
-    let o = guarded(|| e.to_string());
+    // plain Display, or Display under a width / alignment / alternate flag (the text must not depend on them
+    // for what it names)
+    let style = c["style"].as_str().unwrap_or("plain").to_string();
+    let o = guarded(|| match style.as_str() {
+        "wide" => format!("{:>60}", e),
+        "left" => format!("{:<60}", e),
+        "alt" => format!("{:#}", e),
+        _ => e.to_string(),
+    });
     match o {
         Ok(text) => {
             let words: Vec<Value> = text
